@@ -558,6 +558,11 @@ func replay(t *testing.T, sc *Scenario, path string) {
 		os.Exit(2)
 	}
 	tier := rf.Tier
+	// a scenario may classify one history under the property being checked (chainsync-pipeline
+	// reports an early roll-backward as C21 or as C43): replay under the recorded property
+	if rf.Property != "" {
+		os.Setenv("VERIF_PROPERTY", rf.Property)
+	}
 	r := runOne(t, sc, rt.NewReplayTape(rf.Streams), tier, true)
 	if os.Getenv("VERIF_TRACE") != "" {
 		for _, l := range r.FullLog {
